@@ -7,6 +7,7 @@ import (
 	"go/types"
 	"os"
 	"sort"
+	"strconv"
 	"strings"
 
 	"golang.org/x/tools/go/ssa"
@@ -57,6 +58,13 @@ func (e *Engine) refineByteVal(st *State, v ssa.Value, set ByteSet) {
 		st.setv(v, av)
 		if av.linked {
 			st.refineByte(av.coord, av.set)
+		}
+		if av.idx != nil && !av.set.has(0) {
+			// a non-zero byte at look-ahead index n: the terminator lies beyond n
+			if iv, ok := st.getv(av.idx); ok && iv.k == vIdx && iv.ilo >= 0 && iv.safe < 1 {
+				iv.safe = 1
+				st.setv(av.idx, iv)
+			}
 		}
 	case vInt:
 		var keep []int64
@@ -123,8 +131,48 @@ func (e *Engine) refine(st *State, cv AbsVal, cond ssa.Value, truth bool) {
 		if !ok {
 			xv = e.eval(st, cv.cmpX)
 		}
+		if cv.cmpY != nil && xv.k == vIdx {
+			yv := e.eval(st, cv.cmpY)
+			op := cv.cmpOp
+			if !truth {
+				op = map[string]string{"==": "!=", "!=": "==", "<": ">=", "<=": ">", ">": "<=", ">=": "<"}[op]
+			}
+			switch yv.k {
+			case vNegPos:
+				// i >= -Pos(): the index does not reach behind the start of the selection
+				if yv.fresh && (op == ">=" || op == ">" || op == "==") {
+					xv.back = true
+					st.setv(cv.cmpX, xv)
+				}
+			case vInt:
+				if len(yv.ints) > 0 {
+					lo, hi := int(yv.ints[0]), int(yv.ints[len(yv.ints)-1])
+					switch op {
+					case "==":
+						xv.ilo, xv.ihi = max(xv.ilo, lo), min(xv.ihi, hi)
+					case "<":
+						xv.ihi = min(xv.ihi, hi-1)
+					case "<=":
+						xv.ihi = min(xv.ihi, hi)
+					case ">":
+						xv.ilo = max(xv.ilo, lo+1)
+					case ">=":
+						xv.ilo = max(xv.ilo, lo)
+					}
+					if xv.ilo > xv.ihi {
+						st.dead = true
+						return
+					}
+					st.setv(cv.cmpX, xv)
+				}
+			}
+			return
+		}
 		if cv.cmpY != nil {
 			yv := e.eval(st, cv.cmpY)
+			if os.Getenv("PCHECK_STRDEBUG") != "" {
+				fmt.Fprintf(os.Stderr, "CMPY %s %s x=%s y=%s truth=%v\n", cv.cmpX.Name(), cv.cmpY.Name(), xv, yv, truth)
+			}
 			eq := (cv.cmpOp == "==") == truth
 			if eq {
 				common := xv.byteSet().and(yv.byteSet())
@@ -190,6 +238,17 @@ func (e *Engine) refine(st *State, cv AbsVal, cond ssa.Value, truth bool) {
 				xv.mlo, xv.mhi = lo, hi
 				st.setv(cv.cmpX, xv)
 			}
+		case vIdx:
+			lo, hi := refineInterval(xv.ilo, xv.ihi, cv.cmpOp, int(cv.cmpK), truth)
+			if lo > hi {
+				st.dead = true
+				return
+			}
+			xv.ilo, xv.ihi = lo, hi
+			if lo >= 0 {
+				xv.back = true
+			}
+			st.setv(cv.cmpX, xv)
 		case kLenOf:
 			if sv, ok := st.getv(xv.lenOf); ok && sv.k == vSlice {
 				lo, hi := refineInterval(sv.lenLo, sv.lenHi, cv.cmpOp, int(cv.cmpK), truth)
@@ -349,6 +408,11 @@ func (e *Engine) lookup(st *State, in *ssa.Lookup) []*State {
 		} else {
 			s.setv(in, v)
 		}
+	}
+	if sv := e.eval(st, in.X); sv.k == vStrSet && !in.CommaOk {
+		// a byte of a constant string: the set of the bytes the strings can have at that index
+		set(st, strSetByte(sv, e.eval(st, in.Index)), top)
+		return []*State{st}
 	}
 	u, ok := in.X.(*ssa.UnOp)
 	if !ok {
@@ -653,6 +717,12 @@ func (e *Engine) call(fi *fnInfo, st *State, in *ssa.Call) []*State {
 				} else {
 					setRes(st, AbsVal{k: kLenOf, lenOf: cc.Args[0]})
 				}
+			case vStrSet:
+				var ls []int64
+				for _, s := range a.strs {
+					ls = append(ls, int64(len(s)))
+				}
+				setRes(st, intVal(ls...))
 			default:
 				setRes(st, top)
 			}
@@ -853,6 +923,25 @@ func (e *Engine) callKnown(fi *fnInfo, st *State, in *ssa.Call, callee *ssa.Func
 			s = st.clone()
 		}
 		e.applySummary(s, x, e.usesL(callee))
+		if strings.HasPrefix(s.errMsg, "\x00param:") {
+			// the callee recorded an error whose message is one of its parameters
+			idx, _ := strconv.Atoi(strings.TrimPrefix(s.errMsg, "\x00param:"))
+			s.errMsg = "?"
+			if idx < len(cc.Args) {
+				switch a := cc.Args[idx].(type) {
+				case *ssa.Const:
+					if a.Value != nil && a.Value.Kind() == constant.String {
+						s.errMsg = constant.StringVal(a.Value)
+					}
+				case *ssa.Parameter:
+					for i, q := range in.Parent().Params {
+						if q == a {
+							s.errMsg = fmt.Sprintf("\x00param:%d", i)
+						}
+					}
+				}
+			}
+		}
 		switch len(x.ret) {
 		case 0:
 			delete(s.vals, in)
@@ -1048,6 +1137,26 @@ func (e *Engine) primitive(fi *fnInfo, st *State, in *ssa.Call, callee *ssa.Func
 	switch callee.Name() {
 	case "Peek", "PeekRune":
 		j, ok := argInt(0)
+		if av := e.eval(st, args[0]); !ok && callee.Name() == "Peek" && (av.k == vIdx || av.k == vInt && len(av.ints) > 1) {
+			// look-ahead at an index variable
+			if av.k == vInt {
+				av = st.idxOfInts(av)
+				st.setv(args[0], av)
+			}
+			fwd := av.ihi <= 0 || av.safe >= 0
+			bwd := av.ilo >= 0 || av.back || -av.ilo <= st.P || -av.ilo <= st.Lmin
+			e.check(st, "R-CURSOR", label, pos, fwd && bwd, fmt.Sprintf("Peek(n) with n in [%s,%s]: %s", infs(av.ilo), infs(av.ihi), idxWhy(fwd, bwd)))
+			res := AbsVal{k: vByte, set: bsTop, idx: args[0]}
+			if av.ilo == av.ihi {
+				res.set, res.linked, res.coord = st.byteAt(av.ilo), true, av.ilo
+			} else if av.safe >= 1 && av.ilo >= 0 {
+				res.set = bsOf(0).not()
+			} else if av.ihi < 0 {
+				res.set = bsTop // behind the position: any byte, NUL included
+			}
+			setRes(res)
+			return []*State{st}
+		}
 		if !ok {
 			e.undecided(st, "R-CURSOR", label, pos, "look-ahead offset is not a constant on this path")
 			setRes(top)
@@ -1074,7 +1183,15 @@ func (e *Engine) primitive(fi *fnInfo, st *State, in *ssa.Call, callee *ssa.Func
 			st.moveBy(int(n))
 			break
 		}
+		if av.k == vInt && len(av.ints) > 1 {
+			av = st.idxOfInts(av)
+		}
 		switch av.k {
+		case vIdx:
+			fwd := av.ihi <= 0 || av.safe >= 0
+			bwd := av.ilo >= 0 || -av.ilo <= st.P || -av.ilo <= st.Lmin
+			e.check(st, "R-CURSOR", label, pos, fwd && bwd, fmt.Sprintf("Move(n) with n in [%s,%s]: %s", infs(av.ilo), infs(av.ihi), idxWhy(fwd, bwd)))
+			st.moveIdx(av)
 		case vRuneLen:
 			good := av.fresh && av.runeOK
 			e.check(st, "R-CURSOR", label, pos, good, "Move(n) with n from PeekRune(0) taken where no input byte was proven at the position: the rune length can exceed the remaining input")
@@ -1505,6 +1622,8 @@ func absSig(v AbsVal) string {
 		return "[" + strings.Join(s, ",") + "]"
 	case kFieldSlice, kHeapRef, vAtomLen:
 		return fmt.Sprintf("k%d:%s", v.k, v.atom)
+	case vIdx:
+		return fmt.Sprintf("i%d-%d/%d/%v%x/%v", v.ilo, v.ihi, v.safe, v.coverOK, v.cover, v.back)
 	}
 	// marks and other position-dependent values are not passed between the analysed functions;
 	// make the signature unique so that such a call is never shared
